@@ -217,6 +217,10 @@ def denote(seq, w):
         return res
     # layout feasibility
     live = [(s, e) for s, e in segs if e > s]
+    if any(e == s and not 0 <= s < (1 << w) for s, e in segs):
+        # an EMPTY segment asked for at an address outside the memory: nothing is placed there, so the program has an image - but refusing the
+        # address is just as defensible (the unchanged tree does either, depending on whether a zero-sized reserve follows)
+        res['ambiguous'] = 'an empty segment at an address outside the memory'
     if not any(s == 0 for s, e in live):
         res['impossible'] = 'no first op at address 0'
         return res
